@@ -202,8 +202,19 @@ def gen_derive(rng, w, t):
     names = w.sorted_names()
     kind = rng.choice(['add', 'sub', 'mul', 'div', 'neg', 'pos', 'abs', 'T', 'H', 'real', 'imag', 'get1', 'get2', 'get2', 'copy',
                        'reshape', 'convert', 'emul', 'addnum', 'rsubnum', 'smul', 'ediv', 'emax', 'emin', 'vstack', 'hstack', 'fromlist',
-                       'raddnum', 'mulnum', 'subnum', 'rem', 'pow', 'efun', 'blocks', 'blocks', 'fromnum', 'recast', 'trans', 'ctrans'])
+                       'raddnum', 'mulnum', 'subnum', 'rem', 'pow', 'efun', 'blocks', 'blocks', 'fromnum', 'recast', 'trans', 'ctrans', 'nary'])
     nm = w.fresh()
+    if kind == 'nary':
+        # cvxopt.mul / max / min with three arguments or with one list argument
+        cands = [k for k in names if w.o(k)['M'].size == (m, n) or w.o(k)['M'].size == (1, 1)]
+        args = [{'k': 'ref', 'name': t}]
+        for _ in range(rng.randint(1, 2)):
+            if rng.random() < 0.25:
+                args.append({'k': 'num', 'v': mkval(rng.choice(['i', 'd']), rng)})
+            else:
+                args.append({'k': 'ref', 'name': rng.choice(cands) if rng.random() < 0.9 else rng.choice(names)})
+        rng.shuffle(args)
+        return ['derive', nm, 'nary', t, rng.choice(['mul', 'max', 'min']), args, bool(rng.random() < 0.4)]
     if kind == 'blocks':
         # a list of block columns drawn from the pool (numbers are 1x1 blocks); mostly conforming
         def block_col(width, height=None):
@@ -415,6 +426,8 @@ def apply(op, w, stats):
             refs.append(a['name'])
     if kind == 'derive' and op[2] == 'blocks':
         refs += [b['name'] for col in op[4] for b in col if b.get('k') == 'ref']
+    if kind == 'derive' and op[2] == 'nary':
+        refs += [b['name'] for b in op[5] if b.get('k') == 'ref']
     if any(a not in w.names for a in refs):
         return
     if kind == 'iop':
@@ -596,6 +609,33 @@ def apply(op, w, stats):
             if size is not None:
                 kw['size'] = tuple(size)
             fr, fm = (lambda: matrix(arg, **kw)), (lambda: MDL.blocks(mcols, tcx, tuple(size) if size is not None else None))
+        elif dk == 'nary':
+            import cvxopt
+            fname, specs, aslist = op[4], op[5], op[6]
+            pairs = [operand(w, sp) for sp in specs]
+            ra, ma = [pr[0] for pr in pairs], [pr[1] for pr in pairs]
+            f = getattr(cvxopt, fname)
+            if all(not isinstance(x, MDL.MM) for x in ma):
+                return
+            if fname != 'mul' and any((isinstance(x, MDL.MM) and x.tc == 'z') or isinstance(x, complex) for x in ma):
+                return        # no order on complex numbers (refused; checked by the two-argument forms)
+            fr = (lambda: f(ra) if aslist else f(*ra))
+
+            def fm():
+                def two(a, b):
+                    if not isinstance(a, MDL.MM):
+                        if not isinstance(b, MDL.MM):
+                            # two plain numbers: the Python result, a number
+                            r = a * b if fname == 'mul' else (max(a, b) if fname == 'max' else min(a, b))
+                            return MDL.conv(r, MDL.promote(MDL.tcnum(a), MDL.tcnum(b)))
+                        a, b = b, a
+                    if not isinstance(b, MDL.MM):
+                        b = MDL.MM(MDL.tcnum(b), 1, 1, [b])
+                    return MDL.emul(a, b) if fname == 'mul' else MDL.eminmax(a, b, fname)
+                acc = ma[0]
+                for x in ma[1:]:
+                    acc = two(acc, x)
+                return acc if not isinstance(acc, MDL.MM) else acc.copy()
         elif dk == 'fromnum':
             v = lit(op[4]['v'])
             size, tcx = op[5], op[6]
